@@ -35,14 +35,15 @@ def drop(path):
 
 
 def place_demo(outdir, x, wt, meta):
-    demo_dir = meta.get('demo_dir', '').replace('/tmp/wt/%s/' % meta.get('property', ''), '')
+    demo_dir = (meta.get('demo_dir', '').split() or [''])[0].rstrip(';,.')
+    demo_dir = demo_dir.replace('/tmp/wt/%s/' % meta.get('property', ''), '')
     demo_dir = demo_dir.split('/tmp/wt/')[-1]
     if demo_dir.startswith(meta.get('property', '~') + '/'):
         demo_dir = demo_dir[len(meta['property']) + 1:]
     dst = os.path.join(wt, demo_dir)
     os.makedirs(dst, exist_ok=True)
     placed = []
-    if 'cp ' in meta.get('demo_cmd', ''):      # the demo command places the file itself
+    if 'cp ' in meta.get('demo_cmd', '') and '_demo' in meta.get('demo_cmd', '').split('go test')[0]:      # the demo command places the file itself
         return dst, placed
     for f in glob.glob(os.path.join(outdir, x + '_demo*')):
         if os.path.isdir(f):
